@@ -85,6 +85,56 @@ example : Waiting sP 1 ∧ Waiting sP 2 ∧ ¬ Waiting sP 0 ∧ pending sP = [1,
 example : Reachable cfgSy sS ∧ Waiting sS 1 ∧ pending sS = [1] ∧ canRun sS 1 = false :=
   ⟨reachable_of_run _ runS (by decide), by decide⟩
 
+/-- **Shape of the request stack** (`_requests`; (I3) of DESIGN.md Appendix B): null iff nobody owns the mutex; a chain
+    of waiting requests ending in the doorman while an owner past its acquisition exists; a chain ending in the
+    owner's own node (whose `_next` is null) while the found-null acquirer has not yet run `build_queue`.  All nodes
+    above the bottom marker are pending requests. -/
+theorem c08_stack_shape (hwf : c.WF) (hs : Reachable c s) :
+    ((∀ a, ¬ Owner s a) → s.req = []) ∧
+    (∀ o, Owner s o → s.pc o ≠ Pc.build → ∃ xs : List Nat, s.req = xs.map Elem.node ++ [Elem.door] ∧ ∀ x ∈ xs, Waiting s x) ∧
+    (∀ o, s.pc o = Pc.build → ∃ xs : List Nat, s.req = xs.map Elem.node ++ [Elem.node o] ∧ s.queue = [] ∧
+        ∀ x ∈ xs, Waiting s x) := by
+  have h := inv_reachable hwf hs
+  have hnodes : ∀ xs : List Nat, ∀ tl : List Elem, nodesOf (xs.map Elem.node ++ tl) = xs ++ nodesOf tl := by
+    intro xs tl; induction xs with
+    | nil => rfl
+    | cons x xs ih => simp [ih]
+  have hwait : ∀ x, x ∈ nodesOf s.req → s.pc x ≠ Pc.build → Waiting s x := by
+    intro x hx hnb
+    have hc := h.cnt x
+    have := List.count_pos_iff.2 hx
+    split at hc
+    · rename_i hl; rcases hl with hl | hl
+      · exact hl
+      · exact absurd hl hnb
+    · omega
+  refine ⟨fun hno => (h.free hno).1, ?_, ?_⟩
+  · intro o ho hnb
+    obtain ⟨xs, hxs⟩ := (doorEnd_iff _).1 (h.door o ho hnb)
+    refine ⟨xs, hxs, ?_⟩
+    intro x hx
+    refine hwait x (by rw [hxs, hnodes]; simp [hx]) ?_
+    intro hb
+    have := h.excl o x ho (by simp [Owner, hb, isOwner])
+    subst this; exact hnb hb
+  · intro o ho
+    obtain ⟨xs, hxs⟩ := (nodeEnd_iff o _).1 (h.bldEnd o ho)
+    refine ⟨xs, hxs, (h.bld o ho).2, ?_⟩
+    intro x hx
+    have hxo : x ≠ o := by
+      rintro rfl
+      have hc := h.cnt x
+      rw [hxs, hnodes] at hc
+      have h1 : 0 < xs.count x := List.count_pos_iff.2 hx
+      simp at hc
+      split at hc <;> omega
+    refine hwait x (by rw [hxs, hnodes]; simp [hx]) ?_
+    intro hb
+    have := h.excl o x (by simp [Owner, ho, isOwner]) (by simp [Owner, hb, isOwner])
+    exact hxo this.symm
+
+example : sP.req = [2, 1].map Elem.node ++ [Elem.door] ∧ sN.req = [2].map Elem.node ++ [Elem.node 1] ∧ sZ.req = [] := by decide
+
 /-- **Never locked without an owner.** -/
 theorem c08_not_stuck_locked (hwf : c.WF) (hs : Reachable c s) :
     (s.req ≠ [] → ∃ a, Owner s a ∧ canRun s a = true) ∧
@@ -110,20 +160,8 @@ example : sA.req = [Elem.door] ∧ Owner sA 0 ∧ canRun sA 0 = true := by decid
 example : sZ.req = [] ∧ (∀ a, a < 3 → ¬ Owner sZ a) := by decide
 
 /-- **Deadlock freedom (agent level).** If no agent's code can run, every agent has finished all its rounds. -/
-theorem c08_no_deadlock (hwf : c.WF) (hs : Reachable c s) (hstuck : ∀ a, canRun s a = false) : ∀ a, s.pc a = Pc.done := by
-  have h := inv_reachable hwf hs
-  have hno : ∀ a, ¬ Owner s a := fun a ha => by have := owner_canRun ha; rw [hstuck a] at this; cases this
-  obtain ⟨hr, hq⟩ := h.free hno
-  intro a
-  have hc := h.cnt a
-  rw [hr, hq] at hc
-  have hnl : ¬ Listed s a := by
-    intro hl; rw [if_pos hl] at hc; simp at hc
-  have hst := hstuck a
-  unfold canRun at hst
-  unfold Listed at hnl
-  generalize s.pc a = p at *
-  cases p <;> simp_all [isWaiting]
+theorem c08_no_deadlock (hwf : c.WF) (hs : Reachable c s) (hstuck : ∀ a, canRun s a = false) : ∀ a, s.pc a = Pc.done :=
+  inv_stuck_done (inv_reachable hwf hs) hstuck
 
 /- in `sS` only the owner 0 can run (1 is blocked without its flag … ) -/
 example : canRun sS 0 = true ∧ canRun sS 1 = false := by decide
@@ -315,7 +353,20 @@ theorem c08_thread_level (hwf : c.WF) (fuel : Nat) (ts : List Nat) (hg : TGuarde
     Reachable c (trun c fuel (init c) ts) :=
   trun_init_reachable hwf fuel ts hg
 
-example : TGuarded cfgEx 100 (init cfgEx) schedZ := by decide
+/-- **Deadlock freedom (OS-thread level, what the harness' deadlock detector observes).** After any schedule of
+    enabled threads: if no thread is enabled any more, every agent has finished all its rounds, every thread has
+    finished and the mutex is free — the executor glue never loses a runnable coroutine (`LInv`). -/
+theorem c08_no_deadlock_threads (hwf : c.WF) (fuel : Nat) (ts : List Nat) (hg : TGuarded c fuel (init c) ts)
+    (hstuck : ∀ t, enabled (trun c fuel (init c) ts) t = false) :
+    (∀ a, (trun c fuel (init c) ts).pc a = Pc.done) ∧ (∀ t, (trun c fuel (init c) ts).tmain t = TMain.finished) ∧
+    (trun c fuel (init c) ts).req = [] ∧ (trun c fuel (init c) ts).queue = [] := by
+  obtain ⟨hs, _, hL⟩ := treachable_reachable hwf fuel ts _ (reachable_init c) (tinv_init c) (linv_init c) hg
+  obtain ⟨h1, h2⟩ := threads_stuck_done (inv_reachable hwf hs) hL hstuck
+  have := (c08_relockable hwf hs).1 h1
+  exact ⟨h1, h2, this.1, this.2⟩
+
+example : TGuarded cfgEx 100 (init cfgEx) schedZ ∧ (∀ t, t < 3 → enabled (trun cfgEx 100 (init cfgEx) schedZ) t = false) ∧
+    enabled (trun cfgEx 100 (init cfgEx) schedB) 0 = true := by decide
 example : (trun cfgEx 100 (init cfgEx) schedB).queue = sB.queue ∧ (trun cfgEx 100 (init cfgEx) schedB).cur 0 = some 1 ∧
     (∀ a, a < 3 → (trun cfgEx 100 (init cfgEx) schedZ).pc a = Pc.done) := by decide
 
